@@ -367,6 +367,8 @@ func independent(seed uint64, id int, rounds int, bad *[]string, mu *sync.Mutex,
 		if _, err := mapping.GetTextToCIDMapping("Adobe", ord); err != nil {
 			fail("independent: GetTextToCIDMapping(Adobe,%s): %v", ord, err)
 		}
+		// failing calls on a Reader of its own, while the other goroutines do the same on theirs
+		ops.Add(int64(errMix(id, 2, fail)))
 	}
 }
 
@@ -428,6 +430,6 @@ func raceMain() {
 	}
 	pool := poolPhase(e, e.Pick(2, 3)) // sync.Pool drops items at random in a race build: the plain build is the deterministic one
 	e.Finish("random mixes of Reader.Get / DecodeStream / Decode / DecodeExclusive / StoreOrLoadPair from 8 goroutines on one Extractor, plus independent Writers/Readers, cmap.Predefined and mapping.Get*Mapping in 3 more goroutines, under the Go scheduler in a -race build (a TEST: sampled schedules)",
-		map[string]any{"race_rounds": rounds, "race_operations": totalOps.Load(), "race_functional_failures": nfail, "pool_in_race_build": pool})
+		map[string]any{"race_rounds": rounds, "race_operations": totalOps.Load(), "race_functional_failures": nfail, "pool_in_race_build": pool, "errors_in_race_build": errPhase(e)})
 	fmt.Printf("race mode: %d rounds, %d operations, %d functional failures\n", rounds, totalOps.Load(), nfail)
 }
